@@ -2,7 +2,7 @@
 import random
 from fractions import Fraction
 
-from harness import tlc
+from harness import core, tlc
 from harness.drivers import bubbledew as db
 
 ASSUME = [
@@ -13,6 +13,8 @@ ASSUME = [
     'library\'s own Gamma / Phi / PCF / Psat objects at the returned point; residuals, round trips, bracketing, single-component values, scale and order '
     'independence are measured in floating point (tolerance 1e-6 relative) and judged from the logged integers',
 ]
+
+RULE = ' Counting: evaluations = every executed call; distinct_nontrivial = distinct (operation, arguments, state before the call) among the calls that were judged, i.e. in contract, not state shaping and (where the property says so) returned normally.'
 
 
 def key_of(step, clause):
@@ -79,6 +81,7 @@ def run(ctx):
     per = 50
     traces = [dict(id='B%d' % i, mode='fan', init=dict(w=[0] * n), steps=steps[i * per:(i + 1) * per]) for i in range((len(steps) + per - 1) // per)]
     defs, cfgc = db.tla_constants()
+    cases = []
     v = tlc.validate_traces('BubbleDew', defs, cfgc, traces, procs=16)
     n_ok, per_op = 0, {}
     for t in traces:
@@ -86,6 +89,7 @@ def run(ctx):
         bad = dict(x['stepfail'])
         ooc = set(x['stepooc'])
         for l, s in enumerate(t['steps'], 1):
+            cases.append((l not in ooc, [s['op'], s['a'], s['obs'] if s['op'] == 'measured' else None]))
             if l in bad:
                 ctx.violation(key_of(s, bad[l]), '%s %r: %s obs=%r' % (s['op'], s['a'], bad[l], s['obs']),
                               dict(kind='note', detail='re-run the check with the same seed', op=s['op'], a=s['a'], clause=bad[l]))
@@ -97,6 +101,8 @@ def run(ctx):
                rule='MC: bracketing, round trip, normalisation, single-component and scale statements on the rational definition over all weight vectors in '
                     '{0,1,2,5}^3. Exact binding: bubble / dew P and T of synthetic ideal mixtures (1-5 chemicals incl. trace 1:1000 components, any scale and '
                     'order of the chemical list) compared with the rational values. Real packages: measured residuals of every C08 clause')
+    cov.update(core.case_stats(cases))
+    cov['rule'] += RULE
     return 'exploration', cov, ASSUME
 
 
